@@ -65,7 +65,10 @@ RULE = ("cases = (valid DFA, start string or None, strict, key (None / int- / tu
         "direction / window / wrapper / ranking changed between consecutive calls, one shared key callable re-ranked "
         "between calls, object built under the default options or under allow_mutable_automata=True from plain "
         "containers): every ordering of the alphabet in turn and written-out successor loops on 5 corpus DFAs, random "
-        "chains on shaped random DFAs, each answer judged by the sorted filter with the ranking of that moment")
+        "chains on shaped random DFAs, each answer judged by the sorted filter with the ranking of that moment; round 4: "
+        "the same chains on an object DERIVED (complement / ~ / copy / to_complete / to_partial / minify / boolean "
+        "operations) from a source that was queried before (isempty / isfinite / lengths / cardinality / iteration / "
+        "counting / successor searches), judged on the derived object's own definition")
 F13_KEY = "C14:start-string-with-foreign-symbol"
 F14_KEY = "C14:empty-alphabet"
 
